@@ -939,6 +939,143 @@ def neigh_table(c):
         yield dict(c, n=c["n"] + 5)
 
 
+# --- TableLookup operators / normalize / harmonize ---------------------------------------------------
+import operator
+_OPS = {"add": operator.add, "sub": operator.sub, "mul": operator.mul, "div": operator.truediv}
+
+
+def gen_tops(rng, tier, scale):
+    cases = []
+    k = (300 if tier == "quick" else 4000) * scale
+    pow2 = lambda: F(2) ** rng.randint(-2, 3) * rng.choice([1, -1])
+    for _ in range(k):
+        L = rng.choice([1, 2, 3, 4, 6, 8, 12, rng.randint(1, 24)])
+        kind = rng.choice(["binary", "binary", "scalar", "scalar", "neg", "normalize", "harmonize", "harmonize"])
+        op = rng.choice(sorted(_OPS))
+        tbl = [dyadic(rng) for _ in range(L)]
+        c = {"entry": "table_op", "kind": kind, "op": op, "table": [enc(x) for x in tbl],
+             "tts": [typ_for(x, rng) for x in tbl], "cycles": rng.choice([1, 1, 2, 3])}
+        if kind == "binary":
+            L2 = L if rng.random() < 0.85 else L + 1
+            t2 = [pow2() if op == "div" else dyadic(rng) for _ in range(L2)]
+            c.update(table2=[enc(x) for x in t2], tts2=[typ_for(x, rng) for x in t2],
+                     cycles2=c["cycles"] if rng.random() < 0.85 else c["cycles"] + 1)
+        elif kind == "scalar":
+            c["reflected"] = rng.random() < 0.5
+            x = pow2() if op == "div" and not c["reflected"] else dyadic(rng)
+            if op == "div" and c["reflected"]:
+                tbl = [pow2() for _ in range(L)]
+                c.update(table=[enc(v) for v in tbl], tts=[typ_for(v, rng) for v in tbl])
+            c["x"] = {"v": enc(x), "t": "i" if x.denominator == 1 and rng.random() < 0.5 else "f"}
+        elif kind == "normalize":
+            r = rng.random()
+            if r < 0.1:
+                tbl = [F(0)] * L
+            elif r < 0.6:                                   # maximum of magnitude 2^k: exact division
+                m = pow2() * 8
+                tbl = [x if abs(x) < abs(m) else x / 64 for x in tbl]
+                tbl[rng.randrange(L)] = m
+                if rng.random() < 0.3:
+                    tbl[rng.randrange(L)] = -m              # tie in magnitude: the first one wins
+            c.update(table=[enc(v) for v in tbl],
+                     tts=["i" if v.denominator == 1 and rng.random() < 0.4 else "f" for v in tbl])
+        elif kind == "harmonize":
+            ps = rng.sample(range(0, 6), rng.randint(1, 4))
+            if rng.random() < 0.6:                         # only partials dividing the table length
+                ps = [p for p in ps if L % (p + 1) == 0] or [0]
+            amps = [dyadic(rng) / 4 for _ in ps]
+            c["harm"] = [{"p": p, "a": enc(a), "t": typ_for(a, rng)} for p, a in zip(ps, amps)]
+        cases.append(c)
+    return cases
+
+
+def impl_tops(c):
+    from audiolazy import TableLookup
+    t = TableLookup([py(v, ty) for v, ty in zip(c["table"], c["tts"])], c["cycles"])
+    try:
+        k = c["kind"]
+        if k == "binary":
+            t2 = TableLookup([py(v, ty) for v, ty in zip(c["table2"], c["tts2"])], c["cycles2"])
+            r = _OPS[c["op"]](t, t2)
+        elif k == "scalar":
+            x = pv(c["x"])
+            r = _OPS[c["op"]](x, t) if c["reflected"] else _OPS[c["op"]](t, x)
+        elif k == "neg":
+            r = -t
+        elif k == "normalize":
+            r = t.normalize()
+        else:
+            r = t.harmonize({h["p"]: py(h["a"], h["t"]) for h in c["harm"]})
+        ok = isinstance(r, TableLookup) and r.cycles == c["cycles"] and len(r) == len(r.table)
+        return {"out": [enc(x) for x in r.table], "end": "stop" if ok else "BAD-RESULT"}
+    except Exception as e:
+        return {"out": [], "end": err_kind(e)}
+
+
+def req_tops(c):
+    r = {"entry": "table_op", "kind": c["kind"], "op": c["op"], "table": c["table"], "cycles": c["cycles"]}
+    if c["kind"] == "binary":
+        r.update(table2=c["table2"], cycles2=c["cycles2"])
+    elif c["kind"] == "scalar":
+        r.update(x=c["x"]["v"], reflected=c["reflected"])
+    elif c["kind"] == "harmonize":
+        r["harm"] = [{"p": h["p"], "a": h["a"]} for h in c["harm"]]
+    return r
+
+
+def tops_exact(c):
+    if c["kind"] == "normalize":
+        tbl = [dec(x) for x in c["table"]]
+        m = max(tbl, key=abs)
+        return m == 0 or all(is_dyadic(x / m, 30) for x in tbl)
+    return True
+
+
+def cmp_tops(c, io, drv):
+    res = []
+    got = [dec(x) for x in io["out"]]
+    m = drv["model"]
+    exact = tops_exact(c)
+    if "err" in m:
+        okm = got == [] and io["end"] == m["err"]
+    else:
+        okm = same_vals(got, [dec(x) for x in m["out"]], exact) and io["end"] == "stop"
+    if not okm:
+        res.append(("model", "TableLookup %s: impl=%s/%s model=%s" % (c["kind"], io["out"], io["end"], m)))
+    bad = not okm
+    if not bad and drv.get("spec") is not None:
+        bad = not same_vals(got, [dec(x) for x in drv["spec"]], exact)
+    if not bad and c["kind"] == "normalize" and "out" in m:
+        bad = not (all(abs(x) <= 1 for x in got) and any(abs(x - 1) <= TOL for x in got))
+    if bad:
+        res.append(("spec", "TableLookup %s: impl=%s/%s spec=%s" % (c["kind"], io["out"], io["end"], drv.get("spec", m))))
+    return res
+
+
+def tally_tops(eng, c, io):
+    eng.count("table_op", c["kind"] + (":" + c["op"] if c["kind"] in ("binary", "scalar") else ""))
+    eng.count("table_op_end", io["end"])
+    if c["kind"] == "harmonize":
+        eng.count("harmonize_divisible", all(len(c["table"]) % (h["p"] + 1) == 0 for h in c["harm"]))
+
+
+def classify_tops(c, io, drv):
+    return "TableLookup.%s:%s" % (c["kind"], io["end"] if io["end"] != "stop" else "values")
+
+
+def shrink_tops(c):
+    L = len(c["table"])
+    if L > 1:
+        d = dict(c, table=c["table"][:-1], tts=c["tts"][:-1])
+        if c["kind"] == "binary":
+            d.update(table2=c["table2"][:-1], tts2=c["tts2"][:-1])
+        yield d
+    if c["kind"] == "harmonize" and len(c["harm"]) > 1:
+        for i in range(len(c["harm"])):
+            yield dict(c, harm=c["harm"][:i] + c["harm"][i + 1:])
+    yield dict(c, table=list(range(1, L + 1)), tts=["i"] * L)
+
+
 # --- sinusoid -----------------------------------------------------------------------------------
 def gen_sin(rng, tier, scale):
     cases = []
@@ -1317,6 +1454,8 @@ ENTRIES = {
                  neigh=neigh_adsr, classify=classify_adsr, request=req_adsr),
     "table_call": dict(gen=gen_table, impl=impl_table, cmp=cmp_table, tally=tally_table, shrink=shrink_table,
                        neigh=neigh_table, classify=classify_table, request=req_table),
+    "table_op": dict(gen=gen_tops, impl=impl_tops, cmp=cmp_tops, tally=tally_tops, shrink=shrink_tops,
+                     classify=classify_tops, request=req_tops),
     "sinusoid": dict(gen=gen_sin, impl=impl_sin, cmp=cmp_sin, tally=tally_sin, shrink=shrink_sin,
                      request=req_sin),
     "resample": dict(gen=gen_res, impl=impl_res, cmp=cmp_res, tally=tally_res, shrink=shrink_res,
